@@ -32,6 +32,9 @@ type OrderPlan struct {
 }
 
 type C02Case struct {
+	// Raw: both databases are assembled in code (a command list handed to UpdateDatabase, no derived fields filled in)
+	// instead of loaded from files
+	Raw bool `json:"assembled_in_code,omitempty"`
 	// Big: the first (up to) three entries cycled up to this many: hundreds of matches per query word, exact ties among them
 	Big int `json:"big,omitempty"`
 	DB       []Cmd     `json:"db,omitempty"`
@@ -141,6 +144,7 @@ func genC02(rt *rapid.T) C02Case {
 		case 2: // other entries, other length
 			c.Prev = genDB(rt, 12)
 		}
+		c.Raw = rapid.IntRange(0, 5).Draw(rt, "raw") == 0
 		if rapid.IntRange(0, 2).Draw(rt, "entangle") == 0 {
 			c.Opts = entangleBoosts(rt, c.Opts, c.Query)
 		}
@@ -240,9 +244,14 @@ func c02Observe(c C02Case, main, personal []byte, plan OrderPlan, warm []C02Warm
 		// loading is part of the scheduled run: an engine that builds parts of its indexes on goroutines, or waits
 		// for them with a timer, does so under the case's schedule and on the simulated clock
 		var err error
-		if personal != nil {
+		switch {
+		case c.Raw:
+			holder := database.NewCachedDatabase(&database.Database{})
+			holder.UpdateDatabase(cmdsToDB(c.DB))
+			db = holder.Database
+		case personal != nil:
 			db, err = database.LoadDatabaseWithPersonal("/data/main.yml", "/data/personal.yml")
-		} else {
+		default:
 			db, err = database.LoadDatabase("/data/main.yml")
 		}
 		if err != nil {
